@@ -9,6 +9,119 @@ import sys
 sys.path.insert(0, "/verif")
 
 
+def pgen_env(h):
+    """A small parameterised library: two generators sharing one parameter class (nested class, strings, un-coerced number, Prefixed, enum),
+    a chain generator calling another one, and a generator taking a module as parameter."""
+    from enum import Enum
+    from typing import Union
+    from decimal import Decimal
+    from hdl21.prefix import Prefixed, Prefix
+    import hdl21.primitives as prims
+
+    class Flavor(Enum):
+        A = "a"
+        B = "b b"
+
+    @h.paramclass
+    class Inner:
+        x = h.Param(dtype=int, desc="x", default=1)
+        y = h.Param(dtype=str, desc="y", default="q")
+
+    @h.paramclass
+    class Size:
+        w = h.Param(dtype=Union[int, float], desc="w")
+        nf = h.Param(dtype=int, desc="nf", default=1)
+        tag = h.Param(dtype=str, desc="tag", default="t")
+        inner = h.Param(dtype=Inner, desc="inner", default=Inner())
+        p = h.Param(dtype=h.Prefixed, desc="p", default=Prefixed(number=Decimal(1), prefix=Prefix.UNIT))
+        fl = h.Param(dtype=Flavor, desc="fl", default=Flavor.A)
+
+    @h.paramclass
+    class Plain:
+        a = h.Param(dtype=int, desc="a")
+        s = h.Param(dtype=str, desc="s", default="x")
+
+    @h.generator
+    def Decap(p: Size) -> h.Module:
+        m = h.Module()
+        m.VDD, m.VSS = h.Port(), h.Port()
+        m.c = prims.C(c=p.nf * h.prefix.f)(p=m.VDD, n=m.VSS)
+        return m
+
+    @h.generator
+    def RcStage(p: Size) -> h.Module:
+        m = h.Module()
+        m.VSS, m.i, m.z = h.Port(), h.Input(), h.Output()
+        m.r = prims.R(r=p.nf * h.prefix.K)(p=m.i, n=m.z)
+        # (nothing in the body depends on how an equal value was written: the module made for Size(p=1000*m) is the one returned for Size(p=1*UNIT))
+        m.c = prims.C(c=(p.inner.x + 1) * h.prefix.f)(p=m.z, n=m.VSS)
+        return m
+
+    @h.generator
+    def Leaf(p: Plain) -> h.Module:
+        m = h.Module()
+        m.VSS, m.i, m.z = h.Port(), h.Input(), h.Output()
+        m.r = prims.R(r=p.a * h.prefix.K)(p=m.i, n=m.z)
+        return m
+
+    @h.paramclass
+    class WrapP:
+        unit = h.Param(dtype=h.Instantiable, desc="unit")
+        n = h.Param(dtype=int, desc="n", default=2)
+
+    @h.generator
+    def Wrap(p: WrapP) -> h.Module:
+        m = h.Module()
+        m.VSS, m.i, m.z = h.Port(), h.Input(), h.Output()
+        prev = m.i
+        for k in range(p.n):
+            nxt = m.z if k == p.n - 1 else m.add(h.Signal(name=f"n{k}"))
+            m.add(p.unit(i=prev, z=nxt, VSS=m.VSS), name=f"u{k}")
+            prev = nxt
+        return m
+
+    def size(kw):
+        kw = dict(kw)
+        if "inner" in kw:
+            kw["inner"] = Inner(**kw["inner"])
+        if "p" in kw:
+            kw["p"] = Prefixed(number=Decimal(kw["p"][0]), prefix=Prefix.from_exp(kw["p"][1]))
+        if "fl" in kw:
+            kw["fl"] = Flavor[kw["fl"]]
+        return Size(**kw)
+    return dict(Decap=Decap, RcStage=RcStage, Leaf=Leaf, Wrap=Wrap, WrapP=WrapP, Plain=Plain, size=size)
+
+
+def pgen_build(h, E, spec):
+    """the design proper: a chain of generated stages"""
+    top = h.Module(name="Buf" + spec["id"].split("#")[-1])
+    top.VSS, top.i, top.z = h.Port(), h.Input(), h.Output()
+    prev = top.i
+    calls = spec["calls"]
+    for k, c in enumerate(calls):
+        if c["g"] == "RcStage":
+            mod = E["RcStage"](E["size"](c["kw"]))
+        elif c["g"] == "Leaf":
+            mod = E["Leaf"](E["Plain"](**c["kw"]))
+        else:
+            mod = E["Wrap"](E["WrapP"](unit=E["Leaf"](E["Plain"](**c["kw"])), n=c["n"]))
+        nxt = top.z if k == len(calls) - 1 else top.add(h.Signal(name=f"n{k}"))
+        top.add(mod(i=prev, z=nxt, VSS=top.VSS), name=f"s{k}")
+        prev = nxt
+    return top
+
+
+def pgen_earlier(h, E, spec, rnd):
+    """unrelated earlier work with the same library: other generators (and, sometimes, the same one) called with equal values written differently"""
+    for c in spec["earlier"]:
+        if rnd.random() < 0.5:
+            try:
+                g = E["Decap"] if rnd.random() < 0.6 else E["RcStage"]
+                h.to_proto(g(E["size"](c)))
+            except Exception:
+                pass
+
+
 def main():
     progfile, envseed = sys.argv[1], int(sys.argv[2])
     from harness.hd import h
@@ -20,6 +133,7 @@ def main():
     rnd.shuffle(order)
     junk = []
     out = []
+    E = pgen_env(h)
     for k in order:
         p = progs[k]
         # unrelated allocation and unrelated elaboration before the program
@@ -33,7 +147,11 @@ def main():
         if rnd.random() < 0.5:
             junk.clear()
         try:
-            top = build(h, p["D"], p["style"])
+            if p.get("kind") == "pgen":
+                pgen_earlier(h, E, p, rnd)
+                top = pgen_build(h, E, p)
+            else:
+                top = build(h, p["D"], p["style"])
             pkg = h.to_proto(top)
             out.append({"key": f"{p['id']}|proto", "val": hashlib.sha256(pkg.SerializeToString(deterministic=True)).hexdigest()[:20]})
             for fmt in ("spice", "spectre", "verilog"):
